@@ -720,65 +720,154 @@ def binding(ctx):
                         ck = pr[0] == 'closure' and pr[1] in P.fns and any(is_membership(P, y['expr']) for y in P.fns[pr[1]].exits())
                     ok2 = root_first and mods and jn and ck and not any(c_[3].endswith('Iterator::rev') for c_ in calls_in(ce))
         ok = ok1 and ok2
-    if e is None and len(rs.loops()) == 2:
-        # the same search written as two `for` loops with early returns: first hit of stage 1, else first hit of stage 2, else None
+    if (e is None or not is_call(e, 'Option::<T>::or_else')) and len(rs.loops()) == 2:
+        # the same search written as two `for` loops: first hit of stage 1, else first hit of stage 2, else None.  A hit is
+        # delivered by `return Some(..)` or by `found = Some(..); break` with `found` returned after the loop; the restriction to
+        # registered types / to modules may sit in the loop source (partition, filter) or in the body (`continue`).
+        from r_panic import cycle_without
         Ls = sorted(rs.loops(), key=lambda L_: L_[0])
         L1, L2 = Ls
         if not rs.dominates(L1[0], L2[0]) or L2[0] in L1[1]:
             L1, L2 = L2, L1
         staged = rs.dominates(L1[0], L2[0]) and L2[0] not in L1[1] and L1[0] not in L2[1]
-        somes = [x for x in rs.exits() if x['kind'] == 'some']
-        nones = [x for x in rs.exits() if x['kind'] == 'none']
-        others = [x for x in rs.exits() if x['kind'] not in ('some', 'none')]
+        # the values the function can return, with the block that produces each
+        finals = []
+        for x in rs.exits():
+            for v in split_values(rs, x['expr']):
+                finals.append((x, simplify(strip(v))))
+        some_vals = [(x, v) for x, v in finals if v[0] == 'agg' and v[1].endswith('Option::Some')]
+        none_vals = [(x, v) for x, v in finals if v[0] == 'agg' and v[1].endswith('Option::None')]
+        other_vals = [(x, v) for x, v in finals if (x, v) not in some_vals and (x, v) not in none_vals]
+
+        def elem_of(L):
+            h_, body_, _ = L
+            for bi in sorted(body_):
+                t = rs.term(bi)
+                if t['k'] == 'Call' and t.get('callee') and t['callee']['path'].endswith('Iterator::next'):
+                    return ('payload', rs.expr_of_call(t), 'Some', 0)
+            return None
 
         def stage(L):
             h_, body_, _ = L
             sty_, src_ = loop_source(rs, L)
             src_ = expand(rs, src_)
-            # the hit: a switch in the loop whose one edge leads only to a `Some` return, the other stays in the loop
-            hits = []
+            el = elem_of(L)
+            hits, skips = [], []
             for s_ in rs.switches():
                 if s_['block'] not in body_ or (s_['cond'][0] == 'discr' and is_call(strip(s_['cond'][1]), 'Iterator::next')):
                     continue
                 for lab, tgt in s_['edges']:
-                    rets = [x for x in somes if rs.dominates(tgt, x['block'])]
-                    if len(rets) == 1 and rs.exit_kinds_from(tgt) == {'some'}:
-                        hits.append((expand(rs, s_['cond']), lab, expand(rs, rets[0]['expr']), s_['block']))
-            from r_panic import cycle_without
-            every = len(hits) == 1 and not cycle_without(rs, body_, h_, {hits[0][3]})
-            return src_, hits, every
-        src1, hits1, ev1 = stage(L1)
-        src2, hits2, ev2 = stage(L2)
-        det = 'loop form: %s ;; %s' % (show(src1)[:160], show(src2)[:200])
+                    ks = rs.exit_kinds_from(tgt)
+                    leaves = tgt not in body_ or not any(rs.reach(tgt, stop={h_}) & {h_})
+                    # where does this edge go: straight back to the header (skip), or out of the loop with a value (hit)?
+                    to_header = h_ in rs.reach(tgt, stop=set()) and tgt in body_ and all(b_ in body_ for b_ in rs.reach(tgt, stop={h_}))
+                    writes = [c_ for c_ in rs.calls(lambda r: r['block'] in rs.reach(tgt, stop={h_}) and r['block'] != h_ and r['block'] in body_ and r['path'] and not re.search(r'(Iterator::next|::clone|::deref|::as_str|::last|::join|::into|::from|Option::<T>::map|::eq|::ne|contains_key|::contains|drop_in_place)$', r['path']))]
+                    if ks == {'some'} and tgt not in body_ or (ks == {'some'} and not (rs.reach(tgt) & {h_})):
+                        hits.append((expand(rs, s_['cond']), lab, s_['block'], tgt))
+                    elif to_header and not writes and not (rs.reach(tgt, stop={h_}) - {h_} - {tgt}) - body_:
+                        other = [t2 for l2, t2 in s_['edges'] if t2 != tgt]
+                        # a pure skip: the other edge goes on to the hit test
+                        skips.append((expand(rs, s_['cond']), lab, s_['block']))
+            # `found = Some(..); break`: the hit edge dominates an assignment of Some(..) to a local that is returned after the loop
+            for (x, v) in some_vals:
+                pass
+            hit_blocks = {sb for _c, _l, sb, _t in hits}
+            skips = [k for k in skips if k[2] not in hit_blocks]
+            return dict(src=src_, elem=el, hits=hits, skips=skips, body=body_, header=h_)
+
+        S1, S2 = stage(L1), stage(L2)
+        # found/break delivery: a Some value whose producing statement lies inside a loop body
+        def hit_for(S, L):
+            """(cond, label, result value) of the stage's single hit"""
+            h_, body_, _ = L
+            cands = []
+            for (c_, lab, sb, tgt) in S['hits']:
+                rv = [v for x, v in some_vals if rs.dominates(tgt, x['block'])]
+                if len(rv) == 1:
+                    cands.append((c_, lab, rv[0], sb))
+            if cands:
+                return cands
+            # break form: `found = Some(R); break` — the assignment hangs off a switch edge of the body and leaves the loop
+            for l_, ds_ in rs.defs().items():
+                for d_ in ds_:
+                    de = simplify(strip(rs.expr_of_def(d_)))
+                    if not (de[0] == 'agg' and de[1].endswith('Option::Some') and any(v == de for x, v in some_vals)):
+                        continue
+                    if h_ in rs.reach(d_[0]):
+                        continue            # not a break: the loop goes on after the assignment
+                    for s_ in rs.switches():
+                        if s_['block'] in body_ and not (s_['cond'][0] == 'discr' and is_call(strip(s_['cond'][1]), 'Iterator::next')):
+                            for lab, tgt in s_['edges']:
+                                if rs.dominates(tgt, d_[0]) and rs.pred(tgt) == [s_['block']] and not any(k[3] == s_['block'] and k[1] == lab for k in cands):
+                                    cands.append((expand(rs, s_['cond']), lab, de, s_['block']))
+            return cands
+        H1, H2 = hit_for(S1, L1), hit_for(S2, L2)
+        for S_, H_ in ((S1, H1), (S2, H2)):
+            S_['skips'] = [k for k in S_['skips'] if k[2] not in {h[3] for h in H_}]     # the hit test's own fall-through is not a skip
+        det = 'loop form [staged %s hits %d/%d finals %d/%d/%d]: %s ;; %s' % (staged, len(H1), len(H2), len(some_vals), len(none_vals), len(other_vals), show(S1['src'])[:160], show(S2['src'])[:200])
         ok1 = ok2 = False
-        if staged and ev1 and ev2 and len(somes) == 2 and len(nones) == 1 and not others:
+        is_elem = lambda e_, S: S['elem'] is not None and strip(e_) == strip(S['elem'])
+        has_elem = lambda e_, S: S['elem'] is not None and any(strip(y) == strip(S['elem']) for y in walk(e_) if isinstance(y, tuple))
+        if staged and len(H1) == 1 and len(H2) == 1 and len(some_vals) == 2 and len(none_vals) >= 1 and not other_vals:
+            every1 = not cycle_without(rs, S1['body'], S1['header'], {H1[0][3]} | {sb for _c, _l, sb in S1['skips']})
+            every2 = not cycle_without(rs, S2['body'], S2['header'], {H2[0][3]} | {sb for _c, _l, sb in S2['skips']})
+            # ---- stage 1: registered scope entries, last import first, whose last segment is the name
+            src1 = S1['src']
             chain = [c_[3] for c_ in calls_in(src1)]
             part = find_calls(src1, 'Iterator::partition')
-            ok1 = len([c_ for c_ in chain if c_.endswith('Iterator::rev')]) == 1 and bool(part) and any(isinstance(x, tuple) and x[0] == 'field' and x[2] == '0' for x in walk(src1)) and \
-                not any(re.search(r'Iterator::(skip|take|filter|step_by|chain)$', c_) for c_ in chain)
+            one_rev = len([c_ for c_ in chain if c_.endswith('Iterator::rev')]) == 1
+            no_other = not any(re.search(r'Iterator::(skip|take|step_by|chain|take_while|skip_while)$', c_) for c_ in chain)
+            over_scope = any(strip(y)[0] == 'arg' and strip(y)[2] == 'scope' for y in walk(src1) if isinstance(y, tuple) and y)
+
+            def member_closure(pc, positive):
+                pf = predicate_fn(P, pc)
+                if pf is None:
+                    return False
+                ex_ = [strip(expand(pf, x_['expr'])) for x_ in pf.exits()]
+                if len(ex_) != 1 or pf.switches():
+                    return False
+                x_ = ex_[0]
+                neg = False
+                while x_[0] == 'un' and x_[1] == 'Not':
+                    x_, neg = strip(x_[2]), not neg
+                return is_membership(P, x_) and (neg != positive)
+            reg_src = False
             if part:
-                pc = part[0][2][1]
-                okp = pc[0] == 'closure' and pc[1] in P.fns and any(is_membership(P, x['expr']) for x in P.fns[pc[1]].exits())
-                psrc = strip(part[0][2][0])
-                ok1 = ok1 and okp and is_call(psrc, 'slice::<impl [T]>::iter') and strip(psrc[2][0])[0] == 'arg'
-            c1, lab1, r1, _b = hits1[0]
-            elem1 = [x for x in walk(c1) if isinstance(x, tuple) and x[0] == 'payload' and x[2] == 'Some' and is_call(strip(x[1]), 'Iterator::next')]
-            okn = is_call(c1, '::eq') and lab1 is True and bool(find_calls(c1, 'ItemPath::last')) and any(isinstance(x, tuple) and x[0] == 'arg' and x[2] == 'name' for x in walk(c1)) and bool(elem1)
-            okr = bool(elem1) and r1[0] == 'agg' and r1[2] and r1[2][0][1][0] == 'agg' and r1[2][0][1][1].endswith('Type::Raw') and any(x == elem1[0] for x in walk(r1))
-            ok1 = ok1 and okn and okr
+                reg_src = member_closure(part[0][2][1], True) and is_call(strip(part[0][2][0]), 'slice::<impl [T]>::iter') and \
+                    any(isinstance(y, tuple) and y[0] == 'field' and y[2] == '0' and find_calls(y, 'Iterator::partition') for y in walk(src1))
+            flt1 = find_calls(src1, 'Iterator::filter')
+            if not part and len(flt1) == 1:
+                reg_src = member_closure(flt1[0][2][1], True)
+            # or the restriction is a `continue` in the body: skipped exactly when the entry is not registered
+            reg_body = [1 for c_, lab, sb in S1['skips'] if is_membership(P, strip(c_)) and lab is False and has_elem(c_, S1)]
+            extra_skips1 = [1 for c_, lab, sb in S1['skips'] if not (is_membership(P, strip(c_)) and lab is False and has_elem(c_, S1))]
+            registered_only = (reg_src and not S1['skips']) or (not part and not flt1 and len(reg_body) == 1 and not extra_skips1)
+            c1, lab1, r1, _b = H1[0]
+            okn = is_call(c1, '::eq') and lab1 is True and bool(find_calls(c1, 'ItemPath::last')) and any(isinstance(y, tuple) and y[0] == 'arg' and y[2] == 'name' for y in walk(c1)) and has_elem(c1, S1)
+            okr = r1[2] and strip(r1[2][0][1])[0] == 'agg' and strip(r1[2][0][1])[1].endswith('Type::Raw') and has_elem(r1, S1) and not find_calls(r1, 'ItemPath::join')
+            ok1 = bool(one_rev and no_other and over_scope and registered_only and okn and okr and every1)
+            # ---- stage 2: root first, then the scope entries that are not registered types, in scope order: <entry>::name
+            src2 = S2['src']
             ch = find_calls(src2, 'Iterator::chain')
-            c2, lab2, r2, _b = hits2[0]
+            c2, lab2, r2, _b = H2[0]
             if len(ch) == 1:
-                a, b = ch[0][2][0], ch[0][2][1]
-                root_first = is_call(a, 'iter::once') and bool(find_calls(a, 'ItemPath::empty'))
-                mods = any(isinstance(x, tuple) and x[0] == 'field' and x[2] == '1' and find_calls(x, 'Iterator::partition') for x in walk(b)) and \
-                    not any(re.search(r'Iterator::(rev|skip|take|filter|step_by)$', c_[3]) for c_ in calls_in(src2))
-                cand = [x for x in walk(c2) if is_call(x, 'ItemPath::join')]
-                elem2 = [x for x in walk(c2) if isinstance(x, tuple) and x[0] == 'payload' and x[2] == 'Some' and is_call(strip(x[1]), 'Iterator::next')]
-                ck = is_membership(P, c2) and lab2 is True and len(cand) >= 1 and bool(elem2) and any(x == elem2[0] for x in walk(cand[0][2][0])) and \
-                    any(isinstance(x, tuple) and x[0] == 'arg' and x[2] == 'name' for x in walk(cand[0]))
-                okr2 = r2[0] == 'agg' and r2[2] and r2[2][0][1][0] == 'agg' and r2[2][0][1][1].endswith('Type::Raw') and bool(cand) and strip(r2[2][0][1][2][0][1]) == strip(cand[0])
-                ok2 = root_first and mods and ck and okr2
+                a_, b_ = ch[0][2][0], ch[0][2][1]
+                root_first = is_call(a_, 'iter::once') and bool(find_calls(a_, 'ItemPath::empty'))
+                chain2 = [c_[3] for c_ in calls_in(src2)]
+                plain = not any(re.search(r'Iterator::(rev|skip|take|step_by|take_while|skip_while)$', c_) for c_ in chain2)
+                part2 = find_calls(b_, 'Iterator::partition')
+                flt2 = find_calls(b_, 'Iterator::filter')
+                mods = False
+                if part2:
+                    mods = member_closure(part2[0][2][1], True) and any(isinstance(y, tuple) and y[0] == 'field' and y[2] == '1' and find_calls(y, 'Iterator::partition') for y in walk(b_))
+                elif len(flt2) == 1:
+                    mods = member_closure(flt2[0][2][1], False) and any(strip(y)[0] == 'arg' and strip(y)[2] == 'scope' for y in walk(b_) if isinstance(y, tuple) and y)
+                cand = [y for y in walk(c2) if is_call(y, 'ItemPath::join')]
+                ck = is_membership(P, strip(c2)) and lab2 is True and len(cand) >= 1 and has_elem(cand[0][2][0], S2) and \
+                    any(isinstance(y, tuple) and y[0] == 'arg' and y[2] == 'name' for y in walk(cand[0]))
+                okr2 = bool(cand) and r2[2] and strip(r2[2][0][1])[0] == 'agg' and strip(r2[2][0][1])[1].endswith('Type::Raw') and strip(strip(r2[2][0][1])[2][0][1]) == strip(cand[0])
+                ok2 = bool(root_first and plain and mods and ck and okr2 and every2 and not S2['skips'])
+            det += ' ;; stage1 %s stage2 %s' % (ok1, ok2)
         ok = ok1 and ok2
     ctx.ob(['C11', 'C19'], 'R-EXPR', 'C11-D3|candidate-order', ok,
            'candidates are tried as: imported types whose last segment is the name, last import first; else root::name (built-ins); else <module>::name for the scope modules in scope order; first hit wins: %s' % det, loc(rs.span))
